@@ -42,6 +42,10 @@ def search(res, prop, tier, files, tsan_scenario):
     tsan = None
     try:
         tsan = C04.tsan_run(150 if tier == 'quick' else 800, [tsan_scenario])[0]
+        if (ins_m or unk_m) and not tsan['reports']:
+            # the role table already gives the model-level witness; look harder for the implementation-level one
+            # (a race detector on real threads is probabilistic)
+            tsan = C04.tsan_run(4000, [tsan_scenario])[0]
     except C.BuildError as e:
         tsan = {'scenario': tsan_scenario, 'reports': 0, 'exit': -1, 'summary': [], 'yaclib_frames': [], 'stderr_head': str(e)[:400]}
     res.coverage['memory_order_search'] = {'insufficient_sites': ins_m, 'unknown_sites': unk_m, 'tsan': tsan, 'eval_error': everr[:300]}
